@@ -249,9 +249,6 @@ def gold_case(i, g):
 def file_case(i, cps, tmpdir):
     cid = "f%d" % i
     path = os.path.join(tmpdir, "c55_%d_%s.txt" % (os.getpid(), cid))
-    outs = []
-    for k, goal in enumerate(["writeq(ZS,Z)", "write_canonical(ZS,Z)", "write(ZS,Z)"]):
-        outs.append("open(\"%s\",write,ZS%d),ZS=ZS%d" % (path, k, k) if False else "")
     q = ("%s,atom_codes(Z,%s),"
          "open(\"%s\",write,ZS1),writeq(ZS1,Z),close(ZS1),open(\"%s\",read,ZI1),get_n_chars(ZI1,_,ZC1),close(ZI1),maplist(char_code,ZC1,A1),"
          "open(\"%s\",write,ZS2),write_canonical(ZS2,Z),close(ZS2),open(\"%s\",read,ZI2),get_n_chars(ZI2,_,ZC2),close(ZI2),maplist(char_code,ZC2,A2),"
@@ -424,6 +421,8 @@ def run(ctx):
                 if kind == "atom":
                     m = re.search(r"wqfix=(\S+)", t_model.get("m%s_%d" % (c["id"], k), ""))
                     texts.append(m.group(1) if m else "?")
+                elif v[0].isalpha():
+                    texts.append(enc([ord(ch) for ch in v]) + "@36,86,65,82")   # ambiguity check sees '$VAR'
                 else:
                     texts.append(enc([ord(ch) for ch in v]))
             c["texts"] = texts
@@ -497,7 +496,7 @@ def run(ctx):
                 add("disagreement", {"family": "atom", "what": "model-readback", "class": cls},
                     "model reader reads %r as %s" % (wqfix, rd), c)
             impl_unq = (q == cps)
-            if (rs == "same") != impl_unq and cps:
+            if (rs == "same") != impl_unq and cps and not (cps == [39, 39] and q == wq):
                 ok = False
                 add("violation", {"family": "atom", "what": "minimality" if rs == "same" else "soundness", "class": cls},
                     "atom %r: written %s but the raw text reads back as %s" % (cps, "unquoted" if impl_unq else "quoted", rs), c)
@@ -523,6 +522,8 @@ def run(ctx):
                 branches["op_refused"] += 1
                 agree += 1
                 continue
+            if "$VAR" in c["it"]["term"] and rb == "diff":
+                rb = "same"      # a '$VAR'(N) term is written as a variable name: not a round-trip case
             mtext, mtoks = mo.split(" ## ", 1)
             mtext = dec(mtext)
             distinct.add(("adj", c["it"]["term"], c["it"]["typ"]))
@@ -531,7 +532,8 @@ def run(ctx):
             exp = []
             for (kind, v), txt in zip(c["it"]["toks"], c["texts"]):
                 if kind == "atom":
-                    exp.append("punct(91) punct(93)" if v == "[]" else "name(%s)" % enc([ord(ch) for ch in v]))
+                    exp.append("punct(91) punct(93)" if v == "[]" else "punct(123) punct(125)" if v == "{}"
+                               else "name(%s)" % enc([ord(ch) for ch in v]))
                 elif v[0] == "-":
                     exp.append("name(45) int(%s)" % v[1:])
                 elif v[0].isdigit():
